@@ -636,11 +636,11 @@ def rule_output(ck):
             ck.require(dotted(r.expr) == "schedule", "C07.R6", g, r.stmt, ok="returns the array", bad=f"{alg} does not return the schedule array", sink=f"{alg}:return")
 
 
-def rule_units(ck):
+def rule_units(ck, rid="C07.R7"):
     repo = ck.repo
     for q in ("Interface._convert_to_amp_periods", "Interface.remaining_amp_periods", "remaining_amp_periods", "remove_finished_sessions",
               "apply_minimum_charging_rate"):
-        check_units(ck, "C07.R7", repo.fn(q), UNITS[q])
+        check_units(ck, rid, repo.fn(q), UNITS[q])
 
 
 def rule_index(ck):
@@ -670,3 +670,8 @@ def run(ck):
     from .c05 import rule_stateless_view, rule_escape
     ck.attempt(rule_stateless_view, rid="C07.R9")
     ck.attempt(rule_escape, rid="C07.R9")
+    # "a pilot the EVSE accepts": the level ladders the algorithms pick from are the network's cache of each EVSE's own allowable pilots
+    # (cache rule of C13)
+    from .c13 import rule_cache
+    ck.attempt(rule_cache, rid="C07.R10")
+
